@@ -54,8 +54,14 @@ fn fwd(op: &Op, _ctx: &dyn Context, operands: &mut dyn CoordinateSet) -> usize {
     let F = D + DD * latc.signum();
     let H = F * t0.powf(B);
     let G = (F - 1.0 / F) / 2.0;
-    let gamma_0 = (alpha.sin() / D).asin();
-    let lambda_0 = lonc - (G * gamma_0.tan()).asin() / B;
+    let gamma_0 = (alpha.sin() / D).clamp(-1.0, 1.0).asin();
+    // For alpha = 90, G * tan(gamma_0) is +/-1 by construction. Rounding may take it outside
+    // of the domain of asin, and asin is ill-conditioned there anyway
+    let lambda_0 = if ninety {
+        lonc - FRAC_PI_2.copysign(latc) / B
+    } else {
+        lonc - (G * gamma_0.tan()).clamp(-1.0, 1.0).asin() / B
+    };
 
     // (uc, vc): Intermediate coordinates of the projection center
     // let vc = 0.0;
@@ -162,8 +168,14 @@ fn inv(op: &Op, _ctx: &dyn Context, operands: &mut dyn CoordinateSet) -> usize {
     let F = D + DD * latc.signum();
     let H = F * t0.powf(B);
     let G = (F - 1.0 / F) / 2.0;
-    let gamma_0 = (alpha.sin() / D).asin();
-    let lambda_0 = lonc - (G * gamma_0.tan()).asin() / B;
+    let gamma_0 = (alpha.sin() / D).clamp(-1.0, 1.0).asin();
+    // For alpha = 90, G * tan(gamma_0) is +/-1 by construction. Rounding may take it outside
+    // of the domain of asin, and asin is ill-conditioned there anyway
+    let lambda_0 = if ninety {
+        lonc - FRAC_PI_2.copysign(latc) / B
+    } else {
+        lonc - (G * gamma_0.tan()).clamp(-1.0, 1.0).asin() / B
+    };
 
     // (uc, vc): Intermediate coordinates of the projection center
     // let vc = 0.0;
